@@ -226,3 +226,20 @@ def empty_payload_scenarios(tag):
                       {"a": "quiesce"}, {"a": "state", "obj": "U1"}, {"a": "closeConn", "g": "X", "ctxMs": 2000, "wait": True}, {"a": "quiesce", "ms": 50}]
             scs.append({"id": "%s/emptyPayload/%s/%s" % (tag, name, shape), "kind": "iscp", "conn": {}, "steps": steps})
     return scs
+
+
+def write_then_close_scenarios(tag, rounds=250):
+    """many short-lived upstreams on one connection, immediate policy: one write, then Close at once (no wait, no explicit Flush). Close is
+    ordered after the handling of the last accepted write: the chunk reaches the broker before the close request, the totals count it.
+    (MonC01 judges the tracked stream; every fifth stream of the series is tracked by a scenario of its own.)"""
+    scs = []
+    for k in range(5):
+        steps = [{"a": "connect", "must": True}, {"a": "ackMode", "mode": "auto"}]
+        for r in range(rounds):
+            obj = "U%d" % (r + 1)
+            steps += [{"a": "openUp", "obj": obj, "qos": "reliable", "policy": {"k": "immediate"}, "must": True, "closeTimeoutMs": 2000},
+                      {"a": "write", "g": "S", "obj": obj, "id": "A", "pts": [[r + 1, 8]], "ctxMs": 2000, "wait": True},
+                      {"a": "closeUp", "g": "S", "obj": obj, "ctxMs": 3000, "wait": True}]
+        steps += [{"a": "quiesce"}, {"a": "closeConn", "g": "X", "ctxMs": 2000, "wait": True}, {"a": "quiesce", "ms": 50}]
+        scs.append({"id": "%s/writeThenClose/%d" % (tag, k), "kind": "iscp", "conn": {"pingMs": [5000, 2000]}, "p": {"trackAll": True}, "steps": steps})
+    return scs
